@@ -174,6 +174,45 @@ def gen_streams(tier):
     streams.append(assemble([g3[0], g3[1], nmea.line(tag=marker(nxt()), n=2, k=3, sid=None, payload=b"0000"), valid_single()]))
     streams.append(assemble([(b"\\" + marker(nxt()) + b"\\" + s) if not s.startswith(b"\\") and s.startswith(b"!") else (b"junk " + marker(nxt()))
                              for s in corpus.SENTENCES]))
+    # what the other properties' families feed to the library, as command-line input: every message of the
+    # compact text family (padding-only fields etc.), capacity boundaries, a sample of the totality fuzz lines
+    def mark(ln, i):
+        if b"\n" in ln:
+            return None
+        if ln[:1] == b"\\":
+            return ln[:1] + marker(i) + b"," + ln[1:]
+        if ln[:1] in (b"!", b"$"):
+            return b"\\" + marker(i) + b"\\" + ln
+        return ln + b" " + marker(i)
+
+    def from_family(sc, limit):
+        lines = []
+        for u in sc.units:
+            for op in u:
+                parts = op.split(" ")
+                if parts[0] == "D" and parts[1] != "-":
+                    pay, fill = nmea.armor(bytes.fromhex(parts[1]))
+                    if len(pay) <= 400:
+                        lines.append(nmea.line(payload=pay, fill=fill))
+                elif parts[0] == "L" and parts[3] != "-":
+                    lines.append(bytes.fromhex(parts[3]))
+        if len(lines) > limit:
+            lines = rnd.sample(lines, limit)
+        out, cur = [], []
+        for ln in lines:
+            m = mark(ln, nxt())
+            if m is None:
+                continue
+            cur.append(m)
+            if len(cur) >= 400:
+                out.append(assemble(cur))
+                cur = []
+        if cur:
+            out.append(assemble(cur))
+        return out
+    streams += from_family(F.fam_text_small(tier), 6000 if thorough else 1500)
+    streams += from_family(F.fam_capacity(tier), 2000 if thorough else 400)
+    streams += from_family(F.fam_totality(tier), 20000 if thorough else 1200)
     # random mixtures
     for si in range(5000 if thorough else 220):
         L = rnd.choice([1, 2, 3, 5, 10, 30, 80] + ([400, 2000] if thorough else []))
